@@ -85,6 +85,11 @@ def overlapping_reuse(c, rng, ver):
     rng.shuffle(second)
     if [i for i, _ in second if i in dict(first)] == [i for i, _ in first if i in dict(second)] and len(second) > 1:
         second.reverse()
+    if rng.random() < 0.3:
+        # exactly the same blocks - ids and data - in another order: equal as a mapping, not as a header
+        second = list(first)
+        while second == first:
+            rng.shuffle(second)
     se = Session(c, kbpk, None)
     for blocks in (first, second):
         h = make_header(rng, ver, blocks)
